@@ -31,6 +31,9 @@ def bounds(tier):
 def cases(tier, seed):
     q = tier == "quick"
     amax = 4 if q else 5
+    # a stem carrying 0 into two long branches carrying 10: with the given weights [12, 12] both branches are worth taking although the
+    # stem then sees 24 (more than k * max flow)
+    yield {"fam": "dag", "nodes": ["a", "b", "c", "d", "e", "f"], "arcs": [["a", "b", 0], ["b", "c", 10], ["c", "d", 10], ["b", "e", 10], ["e", "f", 10]], "full": True, "kmax": 2, "B": 1}
     for idx, shp in enumerate(world.dag_shapes(4 if q else 5)):
         if len(shp[1]) > amax:
             continue
@@ -230,6 +233,9 @@ def run(case):
     if not cyc:
         pool = sorted({x for x in f.values() if x > 0}) + [F + 2]
         one(min(k, len(pool)), "int", "weights_superset", {"solution_weights_superset": pool}, pool=pool)
+        # two equal weights above every flow value: routes sharing an arc put more than k * max flow on it
+        pool2 = [F + 2, F + 2]
+        one(2, "int", "weights_superset_heavy", {"solution_weights_superset": pool2}, pool=pool2)
     return _ret(viol, nt, tags)
 
 
